@@ -319,7 +319,7 @@ Definition closed (g : graph) : bool :=
   forallb (fun e => forallb (fun j => is_some (lookup g j)) (succs (snd e))) g.
 
 (* keys of dictionaries and elements of sets are hashable in Python; graphtage can give them back only if
-   they are scalars, or (for set elements) sets again - D18, D23 *)
+   they are scalars, or (for set elements) sets again - D18, D28 *)
 Definition hashable_positions (g : graph) : bool :=
   forallb (fun e => match snd e with
                     | PDict kvs => forallb (fun kv => is_scalar_node (node_of g (fst kv))) kvs
@@ -478,7 +478,7 @@ Definition kf_unhashable_key (c : c18_case) : bool :=
                     | _ => false
                     end) (c_graph c).
 
-(* D23: DictNode.from_dict sorts its pairs; a key that is not a leaf has no __lt__ *)
+(* D28: DictNode.from_dict sorts its pairs; a key that is not a leaf has no __lt__ *)
 Definition kf_container_key_sort (c : c18_case) : bool :=
   allow_key_edits (c_opts c) &&
   existsb (fun e => match snd e with
@@ -486,22 +486,16 @@ Definition kf_container_key_sort (c : c18_case) : bool :=
                     | _ => false
                     end) (c_graph c).
 
-(* D24: pydiff.PyObj has no __eq__: a copy is never equal to its original *)
-Definition kf_pyobj_no_eq (c : c18_case) : bool := has_objects (c_graph c).
-
 Definition is_cyclic (c : c18_case) : bool :=
   closed (c_graph c) && negb (is_some (unfold (unfold_depth (c_graph c)) (c_graph c) (c_root c))).
 
-(* D25: CyclicReference.copy_from wraps the IdentityHash again and __eq__ compares wrappers by `is` *)
-Definition kf_placeholder_copy (c : c18_case) : bool := is_cyclic c && ignore_cycles (c_opts c).
-
-(* D26: json.build_tree decodes bytes to str *)
+(* D31: json.build_tree decodes bytes to str *)
 Definition kf_json_bytes (c : c18_case) : bool := has_bytes (c_graph c).
 
-(* D27: json.build_tree has no cycle check: RecursionError *)
+(* D32: json.build_tree has no cycle check: RecursionError *)
 Definition kf_json_cycle (c : c18_case) : bool := is_cyclic c.
 
-Inductive kf_class := KfUnhashableKey | KfContainerKeySort | KfPyObjNoEq | KfPlaceholderCopy | KfJsonBytes | KfJsonCycle.
+Inductive kf_class := KfUnhashableKey | KfContainerKeySort | KfJsonBytes | KfJsonCycle.
 
 (* which clauses a finding explains, on which cases *)
 Definition on_entry (cl : clause) (p : entry -> bool) : bool :=
@@ -514,8 +508,6 @@ Definition kf_explains (k : kf_class) (c : c18_case) (cl : clause) : bool :=
   | KfUnhashableKey => kf_unhashable_key c && on_entry cl not_json && is_kind cl ClValue
   | KfContainerKeySort => kf_container_key_sort c && on_entry cl not_json
                           && (is_kind cl ClBuilt || is_kind cl ClCyclePlaceholder || is_kind cl ClCycleError)
-  | KfPyObjNoEq => kf_pyobj_no_eq c && on_entry cl (entry_eqb EPyObj) && is_kind cl ClCopyEq
-  | KfPlaceholderCopy => kf_placeholder_copy c && on_entry cl not_json && (is_kind cl ClCopy || is_kind cl ClCopyEq)
   | KfJsonBytes => kf_json_bytes c && ((on_entry cl (entry_eqb EJson) && is_kind cl ClValue)
                                        || is_kind cl ClSameTree)
   | KfJsonCycle => kf_json_cycle c && on_entry cl (entry_eqb EJson) && is_kind cl ClCycleError
